@@ -144,7 +144,25 @@ COMPARATORS = dict(
     ],
 )
 
-JOBS = {"comparators": COMPARATORS, "geometry": GEOMETRY, "makepath": MAKEPATH, "sepdir": SEPDIR, "tri": TRI, "seppair": SEPPAIR, "pindirs": PINDIRS}
+# ---- vpsc::Rectangle (libvpsc/rectangle.h): getters with the process-global borders, overlap, moves
+_RF = ["getMaxX", "getMaxY", "getMinX", "getMinY", "width", "height", "getCentreX", "getCentreY",
+       "moveMinX", "moveMinY", "moveCentreX", "moveCentreY", "overlapX", "overlapY"]
+RECT = dict(
+    src="cola/libvpsc/rectangle.cpp",
+    ns="AdaptaVerif.Gen.RectK",
+    out="lean/AdaptaVerif/Gen/RectK.lean",
+    imports=["AdaptaVerif.Model.Scanline"],
+    opens=["AdaptaVerif.Model.Scanline (Rect)"],
+    functions=_RF,
+    filters={f: "Rectangle::" + f for f in _RF},
+    types={"Rectangle": "Rect"}, ptr_vals=["Rectangle"],
+    this_struct=("self", "Rect", {"minX": ("minX", "Rat"), "maxX": ("maxX", "Rat"), "minY": ("minY", "Rat"), "maxY": ("maxY", "Rat")}),
+    # the static members Rectangle::xBorder / yBorder (process-global state) are explicit parameters of every kernel
+    this_params=[("xBorder", "Rat"), ("yBorder", "Rat")],
+    constants={"xBorder": ("xBorder", "Rat"), "yBorder": ("yBorder", "Rat")},
+)
+
+JOBS = {"rect": RECT, "comparators": COMPARATORS, "geometry": GEOMETRY, "makepath": MAKEPATH, "sepdir": SEPDIR, "tri": TRI, "seppair": SEPPAIR, "pindirs": PINDIRS}
 
 def regenerate(names, ROOT, REPO):
     info = {}
